@@ -299,8 +299,8 @@ def has_tick(e):
     return False
 
 
-def derived_program(rng, nforms=None):
-    g = Gen(rng, ticks=True, derived=True, forbid={"atom-key"})
+def derived_program(rng, nforms=None, ticks=True):
+    g = Gen(rng, ticks=ticks, derived=True, forbid={"atom-key"})
     top = Scope()
     forms = []
     n = nforms or rng.randint(2, 5)
@@ -356,8 +356,8 @@ def classes_of_program(forms):
 
 
 # ---- C01: core forms only -------------------------------------------------------------------
-def core_program(rng):
-    g = Gen(rng, ticks=True, derived=False, forbid={"atom-key"})
+def core_program(rng, ticks=True):
+    g = Gen(rng, ticks=ticks, derived=False, forbid={"atom-key"})
     top = Scope()
     forms = []
     templates = rng.sample(["adder", "count", "compose", "varsum", "internal", "apply", "shadowdef", "shadowdef", "plain", "plain", "plain"], rng.randint(3, 6))
@@ -365,7 +365,7 @@ def core_program(rng):
         if t == "adder":        # closures of order 3
             a, b, c = rng.sample(NAMES, 3)
             forms.append(define("adder", lam([a], [lam([b], [lam([c], [app("+", var(a), var(b), var(c))])])])))
-            forms.append(app(app(app("adder", lit(rng.randint(-5, 5))), tick(g.lab(), lit(rng.randint(-5, 5)))), lit(rng.randint(-5, 5))))
+            forms.append(app(app(app("adder", lit(rng.randint(-5, 5))), g.maybe_tick(lit(rng.randint(-5, 5)), True)), lit(rng.randint(-5, 5))))
             top.vars["adder"] = "opaque"
         elif t == "count":      # recursion on a decreasing counter (non-tail and tail)
             n, acc = rng.sample(NAMES, 2)
@@ -449,7 +449,7 @@ FAULTS = {
 }
 
 
-def inject_fault(rng, forms):
+def inject_fault(rng, forms, ticks=True):
     """replace one expression in a sequenced position (body / begin / clause body / top level) by a fault;
     positions whose evaluation order relative to other effects is unspecified are never chosen"""
     import copy
@@ -458,7 +458,7 @@ def inject_fault(rng, forms):
     spots = [p for p, node in paths(forms) if isinstance(node, list) and p and p[-1] in ("body", "es") and len(node) >= 1]
     kind = rng.choice(sorted(FAULTS))
     fault = FAULTS[kind](rng)
-    if rng.random() < 0.5:
+    if ticks and rng.random() < 0.5:
         fault = begin(tick(900), fault)
     pre = [define("proc-one", lam(["z"], [var("z")]))]
     if not spots or rng.random() < 0.15:
